@@ -13,6 +13,7 @@ def dispatch (st : DState) (line : String) : DState × String :=
   | "tbl" :: rest => let (t, r) := tblReq st.tables rest; ({ st with tables := t }, r)
   | "prf" :: rest => (st, prfReq st.tables rest)
   | "hash" :: rest => (st, hashReq st.tables rest)
+  | "aes" :: rest => (st, aesReq st.tables rest)
   | _ => (st, Proto.bad)
 
 partial def loop (hin : IO.FS.Stream) (hout : IO.FS.Stream) (st : DState) : IO Unit := do
